@@ -450,6 +450,53 @@ func vfC16OldConnRateLimit(rec *evid.Rec, via string) {
 		rec.Violate("C16/old-connection-not-rate-limited/via="+via, fmt.Sprintf("%d of 20 requests admitted in %v on a connection opened before rate limiting was enabled (burst 1, 1 req/s); a fresh connection admitted %d", oa, oe, fa), nil)
 	}
 	rec.Distinct(fmt.Sprintf("old-conn-rate-limit|%s|old-admitted=%d|fresh-admitted=%d", via, min64i(oa, 3), min64i(fa, 3)))
+	// The same long-lived connection through a sequence of policies: after each update has
+	// returned, the connection is judged by THAT policy - limits replaced by other limits,
+	// limiting switched off, and on again.
+	setRL := func(cfg *RateLimiterConfig) error {
+		if via == "UpdatePolicyOptions" {
+			p := *srv.nfs.policy.Load()
+			p.EnableRateLimiting, p.RateLimitConfig = cfg != nil, cfg
+			return srv.nfs.UpdatePolicyOptions(p)
+		}
+		eo := srv.nfs.GetExportOptions()
+		eo.EnableRateLimiting, eo.RateLimitConfig = cfg != nil, cfg
+		return srv.nfs.UpdateExportOptions(eo)
+	}
+	generous := DefaultRateLimiterConfig()
+	generous.GlobalRequestsPerSecond, generous.PerIPRequestsPerSecond, generous.PerIPBurstSize = 1000000, 1000000, 1000000
+	generous.PerConnectionRequestsPerSecond, generous.PerConnectionBurstSize = 1000000, 1000000
+	tight := DefaultRateLimiterConfig()
+	tight.PerConnectionRequestsPerSecond, tight.PerConnectionBurstSize = 1, 1
+	tightIP := DefaultRateLimiterConfig()
+	tightIP.PerIPRequestsPerSecond, tightIP.PerIPBurstSize = 1, 1
+	type phase struct {
+		name string
+		cfg  *RateLimiterConfig
+	}
+	phases := []phase{{"generous", &generous}, {"tight-per-connection", &tight}, {"off", nil}, {"tight-per-ip", &tightIP}, {"generous", &generous}, {"tight-per-connection", &tight}}
+	prev := "tight-per-connection"
+	for _, ph := range phases {
+		if err := setRL(ph.cfg); err != nil {
+			rec.Infra(err.Error())
+			return
+		}
+		a, e, ok := count(old)
+		if !ok {
+			rec.Inconclusive(1)
+			return
+		}
+		rec.Eval(20)
+		if strings.HasPrefix(ph.name, "tight") {
+			if a > allow(e) {
+				rec.Violate("C16/old-connection-judged-under-earlier-limits/via="+via, fmt.Sprintf("policy sequence ... %s -> %s on one open connection: %d of 20 requests admitted in %v after the update to burst 1, 1 req/s had returned", prev, ph.name, a, e), nil)
+			}
+		} else if a != 20 {
+			rec.Violate("C16/old-connection-judged-under-earlier-limits/via="+via, fmt.Sprintf("policy sequence ... %s -> %s on one open connection: only %d of 20 requests admitted after the update that lifted the limits had returned", prev, ph.name, a), nil)
+		}
+		rec.Distinct(fmt.Sprintf("old-conn-policy-sequence|%s|%s->%s|admitted=%d", via, prev, ph.name, min64i(a, 3)))
+		prev = ph.name
+	}
 }
 
 func vfC16Stress(rec *evid.Rec, s int) {
